@@ -1,5 +1,5 @@
 #!/bin/bash
-# tools/sweep_patches.sh benign|seeded [name-glob] — run the quick checks against every stored change in a private scratch
+# tools/sweep_patches.sh benign|seeded ['name-glob name-glob ...'] — run the quick checks against every stored change in a private scratch
 # worktree (/tmp/fml-sweep-$$, removed afterwards), without touching /repo or /verif/evidence, so it can run in the background.
 #   benign: all seven checks must stay quiet (an alarm is a false alarm of the machinery)
 #   seeded: the check(s) of the property the change was written against must report it
@@ -11,7 +11,7 @@ mkdir -p "$OUT"
 cleanup() { git -C /repo worktree remove --force "$WT" 2>/dev/null; rm -rf "$OUT"; }
 trap cleanup EXIT
 export FML_REPO="$WT" VERIF_OUT="$OUT"
-for d in /verif/$mode/$glob/; do
+for g in $glob; do for d in /verif/$mode/$g/; do
   id="$(basename "$d")"; [ -f "$d/patch.diff" ] || continue
   git -C "$WT" checkout -q -- . ; git -C "$WT" apply --3way "$d/patch.diff" 2>/dev/null || git -C "$WT" apply "$d/patch.diff" || { echo "$id: PATCH-DOES-NOT-APPLY"; git -C "$WT" reset -q --hard; continue; }
   if [ "$mode" = benign ]; then ids="C03 C04 C06 C08 C10 C11 C16"; else
@@ -27,4 +27,4 @@ print(' '.join(dict.fromkeys(re.findall(r'C\d\d',s))))")"; fi
   done
   echo "$line"
   git -C "$WT" reset -q --hard
-done
+done; done
